@@ -839,6 +839,27 @@ static void run_combo(const cfg_t *c, const char *fmt, vf_result *r,
 	static const vnadata_filetype_t ft[] = { VNADATA_FILETYPE_NPD,
 	    VNADATA_FILETYPE_TOUCHSTONE1, VNADATA_FILETYPE_TOUCHSTONE2 };
 	vnadata_set_filetype(C, ft[c->sel - SEL_SET_NPD]);
+    } else {
+	/*
+	 * the destination was used before: it holds a file of the other
+	 * family (and remembers that file type); the name of the file to
+	 * load now says what it is
+	 */
+	const char *other = vf_tmp(is_ts ? "c06_prev.npd" : "c06_prev.s1p");
+	FILE *fp = fopen(other, "w");
+	if (fp != NULL) {
+	    if (is_ts)
+		fputs("#NPD\n#:version 1.0\n#:ports 1\n#:frequencies 1\n"
+			"#:parameters Sri\n1e9 0.5 0.25\n", fp);
+	    else
+		fputs("# Hz S RI R 50\n1e9 0.5 0.25\n", fp);
+	    fclose(fp);
+	    if (vnadata_load(C, other) != 0)
+		FAIL("harness:preload", "could not preload the destination "
+			"with %s: %s", other, logC.count ? logC.msg[0] : "");
+	    unlink(other);
+	    vf_errlog_reset(&logC);
+	}
     }
     {
 	int lrc = vnadata_load(C, fname);
